@@ -27,6 +27,10 @@ CHECKS['C17'] = ('3/C17', 'Every float leaf of the real reader\'s data dictionar
                  'conversion functions run for all 90 unit combinations and every accepted unit spelling; per-leaf conversion '
                  'exactly once / unchanged, round trips and exception-freedom are SMT queries against an independent key classification.')
 
+CHECKS['C19'] = ('3/C19', 'hotspot.calculate_temps, the clad split, expression evaluation and the peak-rise extraction run on symbolic '
+                 'tables; identity at unity, >= nominal, monotone in output sigma, 1/input-sigma scaling and the cumulative structure are '
+                 'SMT queries (square roots by an abstraction ladder with solver-proved lemma chains).')
+
 NOT_APPLICABLE = {
     'C16': ('No symbolic dimension for a solver: process schedules/multiprocessing/file output, bitwise IEEE determinism, and '
             'object-identity/type mutation of the input dictionary on `is None`/key-presence branches (DESIGN section 4).'),
